@@ -61,7 +61,7 @@ impl Handler<SyncSenderSetCmd> for ClusteSyncSender {
 impl Handler<SyncSenderRequest> for ClusteSyncSender {
     type Result = ResponseActFuture<Self, anyhow::Result<SyncSenderResponse>>;
 
-    fn handle(&mut self, msg: SyncSenderRequest, _ctx: &mut Self::Context) -> Self::Result {
+    fn handle(&mut self, msg: SyncSenderRequest, ctx: &mut Self::Context) -> Self::Result {
         let cluster_sender = self.cluster_sender.clone();
         let target_addr = self.target_addr.clone();
         let mut send_extend_infos = self.send_extend_infos.clone();
@@ -111,9 +111,22 @@ impl Handler<SyncSenderRequest> for ClusteSyncSender {
             let body_vec = resp_payload.body.unwrap_or_default().value;
             let _: NamingRouterResponse = serde_json::from_slice(&body_vec)?;
             Ok(SyncSenderResponse::None)
+        };
+        // the requests to one peer leave one after the other, the retransmission included: the
+        // receiver applies them in the order of their arrival, so a batch that is sent again must
+        // not arrive behind the batch that follows it (it would undo that batch's removes)
+        let (tx, rx) = tokio::sync::oneshot::channel();
+        ctx.wait(
+            async move {
+                tx.send(fut.await).ok();
+            }
+            .into_actor(self),
+        );
+        let fut = async move {
+            rx.await
+                .unwrap_or_else(|_| Err(anyhow::anyhow!("ClusteSyncSender,the request is dropped")))
         }
-        .into_actor(self)
-        .map(|r, _act, _ctx| r);
+        .into_actor(self);
         Box::pin(fut)
     }
 }
